@@ -75,7 +75,9 @@ func deletesFrom(p *core.Program, g *ssa.Function, table string, depth int) bool
 				if (op.Op == "Delete" || op.Op == "DeleteAll" || op.Op == "DeletePrefix") && op.TableKnown && op.Table == table {
 					res = true
 				}
-				continue
+				if op.Op != "Commit" {
+					continue
+				}
 			}
 			if ci, ok := in.(ssa.CallInstruction); ok {
 				if h := ci.Common().StaticCallee(); h != nil && h.Pkg != nil && core.IsConsul(h.Pkg.Pkg.Path()) {
